@@ -72,7 +72,7 @@ def build(kind, start, every, d=1, ncomp=1, time_first=False, system=False, odd=
         class Eq(ODE):
             def equation(self, t, u, p):
                 if ncomp == 1: return psi(0)(u(t, p)[0] + 0.5 * sc(t))
-                return jnp.stack([psi(c)((1.0 + c) * u(t, p)[0] + 0.5 * sc(t)) for c in range(ncomp)])
+                return jnp.stack([(1.0 - 2.0 * (c % 2)) * psi(c)((1.0 + c) * u(t, p)[0] + 0.5 * sc(t)) for c in range(ncomp)])      # alternating signs: components partially cancel
         params = Params(nn_params=u.init_params(), eq_params={"kappa": jnp.array(1.3)})
         loss = LossODE(u=u, dynamic_loss=Eq(Tmax=1), params=params)
         nt_tot = 8 if odd else 9              # odd: the free room (5) is not a multiple of the selected size (2)
@@ -83,7 +83,7 @@ def build(kind, start, every, d=1, ncomp=1, time_first=False, system=False, odd=
         class Eq(PDEStatio):
             def equation(self, x, u, p):
                 if ncomp == 1: return psi(0)(u(x, p)[0] + 0.5 * x[0])
-                return jnp.stack([psi(c)((1.0 + c) * u(x, p)[0] + 0.5 * x[0]) for c in range(ncomp)])
+                return jnp.stack([(1.0 - 2.0 * (c % 2)) * psi(c)((1.0 + c) * u(x, p)[0] + 0.5 * x[0]) for c in range(ncomp)])
         params = Params(nn_params=u.init_params(), eq_params={"kappa": jnp.array(1.3)})
         loss = LossPDEStatio(u=u, dynamic_loss=Eq(Tmax=1), params=params)
         n_tot = 7 if odd else 8
